@@ -121,6 +121,50 @@ def correspondence(ctx):
     compare_stream(ctx, 'trav', reqs)
 
 
+def edited_object(ctx, rng, j):
+    """topological iteration on a circuit *object with a history*: gates were added and removed again through the public
+    API (a gate that lost its last user keeps an empty entry in the users index), one gate was renamed"""
+    from common import circ_from_json, build_via_api
+    from cirbo.core.circuit import gate as G
+    try:
+        c = build_via_api(j)
+        labels = list(c.gates)
+        if not labels:
+            return
+        for i in range(rng.randint(1, 3)):
+            g = rng.choice(labels)
+            c.emplace_gate('tmp_reader_%d' % i, G.NOT, (g,))
+            c.emplace_gate('tmp_reader2_%d' % i, G.AND, (g, 'tmp_reader_%d' % i))
+            c.remove_gate('tmp_reader2_%d' % i)
+            c.remove_gate('tmp_reader_%d' % i)
+        non_in = [l for l in labels if c.get_gate(l).gate_type != G.INPUT]
+        if non_in and rng.random() < 0.5:
+            c.rename_gate(rng.choice(non_in), 'renamed_gate')
+    except Exception:  # noqa: BLE001
+        return
+    ops = {l: list(g.operands) for l, g in c.gates.items()}
+    for inverse in (True, False):
+        ctx.case(json.dumps(['edited_top_sort', j['gates'], inverse]))
+        try:
+            order = [g.label for g in c.top_sort(inverse=inverse)]
+        except Exception as e:  # noqa: BLE001
+            ctx.violation('top_sort.raises', f'top_sort(inverse={inverse}) raised {type(e).__name__} on an acyclic circuit object that was edited through the API',
+                          input={'c': j, 'inverse': inverse, 'edited': True})
+            continue
+        pos = {l: i for i, l in enumerate(order)}
+        ok = sorted(order) == sorted(ops) and len(order) == len(ops)
+        if ok:
+            for l, os_ in ops.items():
+                for o in os_:
+                    if (pos[o] > pos[l]) == inverse:
+                        ok = False
+        if not ok:
+            ctx.violation('top_sort.wrong', f'top_sort(inverse={inverse}) on an edited circuit object: {len(order)} of {len(ops)} gates, or not in dependency order',
+                          input={'c': j, 'inverse': inverse, 'edited': True, 'order': order})
+        else:
+            ctx.count('edited_object:top_sort')
+
+
 def search(ctx):
     rng = ctx.rng('search')
     for k in range(ctx.scale(250, 6000)):
@@ -133,6 +177,8 @@ def search(ctx):
                 cands.append((cj, True))
         for jj, cyc in cands:
             check_one(ctx, rng, jj, cyc)
+        if k % 3 == 0:
+            edited_object(ctx, rng, j)
 
 
 def check_one(ctx, rng, j, cyclic):
